@@ -173,6 +173,81 @@ def run(ctx):
     ctx.sample({'a': jsonable(vocab[5]), 'b': jsonable(vocab[6]), 'observed[eq,hash-consistent,member,suppresses]': expected[5][6]})
     ctx.sample({'a': jsonable(vocab[-1]), 'b': jsonable(vocab[-2]), 'observed': expected[-1][-2]})
 
+    # the copies the cache and the known-answer logic actually compare are DECODED from datagrams: the wire copy of a record, read on a socket
+    # without scope and on an IPv6 socket with scope 7, must be the same record as the one that was sent - the scope of the receiving socket
+    # belongs to the rdata of AAAA records only
+    from zeroconf import DNSOutgoing
+    from zeroconf._protocol.incoming import DNSIncoming
+    wire_fails = []
+    done = set()
+    for i, d in enumerate(vocab):
+        if d['kind'] == 'KQuestion' or idents[i] in done:
+            continue
+        namefield = {'KPointer': 'alias', 'KService': 'server', 'KNsec': 'next_name'}.get(d['kind'])
+        if namefield and not d[namefield].endswith('.'):
+            continue            # (the vocabulary's degenerate empty targets have no faithful wire form: names are fully qualified, C01)
+        canon = {'KAddress': (1, 28), 'KHinfo': (13,), 'KPointer': (12, 5), 'KText': (16,), 'KService': (33,), 'KNsec': (47,)}[d['kind']]
+        if d['type'] not in canon or (d['kind'] == 'KAddress' and len(d['address']) != (4 if d['type'] == 1 else 16)):
+            continue            # (a TXT object typed PTR and the like: the decoder goes by the type field)
+        if d['kind'] == 'KNsec' and len(set(d['rdtypes'])) != len(d['rdtypes']):
+            continue            # (a type listed twice has no wire form of its own: the bitmap is a set)
+        done.add(idents[i])
+        out = DNSOutgoing(0x8400)
+        out.add_answer_at_time(objs[i], 0)
+        try:
+            data = out.packets()[0]
+        except ValueError:
+            continue            # (an NSEC record without types has no wire form)
+        for sc_ in (None, 7):
+            got = DNSIncoming(data, scope_id=sc_).answers()
+            want = mk(dict(d, scope_id=sc_ if d['type'] == 28 and d['kind'] == 'KAddress' else None))
+            ctx.count(('wire', i, sc_), nontrivial=True)
+            ctx.hist('wire-copy:' + d['kind'][1:])
+            if len(got) != 1:
+                wire_fails.append((i, sc_, f"decoding the datagram gave {len(got)} records"))
+            elif not (got[0] == want and hash(got[0]) == hash(want) and got[0] in {want}):
+                wire_fails.append((i, sc_, f"the wire copy read with socket scope {sc_} is {got[0]!r}, which is not the same record as {want!r}"))
+    # "the same record - for the cache": whether an arriving record meets its cached copy must not depend on the copy's TTL or age. A copy that has
+    # run out but has not been reaped yet is still the cached copy of that record (the listeners are told (new, old=copy), and there is one
+    # entry afterwards), at every age from 0 to just before the 10 s cleanup
+    from lib.fakemsg import FakeIncoming
+    from zeroconf._cache import DNSCache
+    from zeroconf._handlers.record_manager import RecordManager
+    from zeroconf._updates import RecordUpdateListener
+    cache_fails = []
+    seen_ids = set()
+    for i, d in enumerate(vocab):
+        if d['kind'] in ('KQuestion', 'KPointer') or idents[i] in seen_ids or not d['ttl']:
+            continue        # (pointer TTLs are raised to a floor on the way in: C06)
+        seen_ids.add(idents[i])
+        for age in (0, d['ttl'] * 500, d['ttl'] * 1000 - 1, d['ttl'] * 1000, d['ttl'] * 1000 + 1, d['ttl'] * 1000 + 9000):
+            class ZC:
+                pass
+            zc = ZC()
+            zc.cache = DNSCache()
+            zc.async_notify_all = lambda: None
+            rm = RecordManager(zc)
+            got = []
+
+            class L(RecordUpdateListener):
+                def async_update_records(self, zc_, now, records):
+                    got.extend(records)
+            rm.async_add_listener(L(), None)
+            first, second = mk(dict(d, created=1000)), mk(dict(d, created=1000 + age, cls=d['cls'] & 0x7FFF))
+            rm.async_updates_from_response(FakeIncoming(answers=[first], now=1000, flags=0x8400))
+            del got[:]
+            rm.async_updates_from_response(FakeIncoming(answers=[second], now=1000 + age, flags=0x8400))
+            ctx.count(('cache', i, age), nontrivial=True)
+            ctx.hist('cached-copy:' + ('live' if age < d['ttl'] * 1000 else 'expired-unreaped'))
+            olds = [u.old for u in got if u.new == second]
+            entries = [r for r in zc.cache.async_entries_with_name(d['name']) if r == second]
+            if len(olds) != 1 or olds[0] is None or len(entries) != 1:
+                cache_fails.append((i, age, f"an equal record arriving {age} ms after its cached copy (TTL {d['ttl']} s) was handed to the listeners with "
+                                            f"old={olds}, and the cache then holds {len(entries)} entries for it"))
+    for i, age, why in cache_fails[:3]:
+        ctx.violation({'kind': 'oracle', 'a': jsonable(vocab[i]), 'age_ms': age, 'why': why, 'broken': ctx.build_msg if not ok else None})
+    for i, sc_, why in wire_fails[:3]:
+        ctx.violation({'kind': 'oracle', 'a': jsonable(vocab[i]), 'socket_scope': sc_, 'why': why, 'broken': ctx.build_msg if not ok else None})
     for i, j, why in fails[:3]:
         ctx.violation({'kind': 'oracle', 'a': jsonable(vocab[i]), 'b': jsonable(vocab[j]), 'why': why,
                        'broken': ctx.build_msg if not ok else None})
